@@ -1,7 +1,9 @@
 """ ngo lets you optimize your unground ASP encoding """
 
+import os
 from copy import deepcopy
 from typing import Iterable
+from typing import Any, Callable, Optional  # NGO_VERIF hook
 
 from clingo.ast import AST
 
@@ -16,6 +18,15 @@ from ngo.sum_aggregates import SumAggregator
 from ngo.symmetry import SymmetryTranslator
 from ngo.unused import UnusedTranslator
 from ngo.utils.ast import Predicate
+
+# verification hook (add-only, guarded by NGO_VERIF=1): a callback receiving (stage, iteration, program)
+_NGO_VERIF = os.environ.get("NGO_VERIF") == "1"
+VERIF_HOOK: Optional[Callable[[str, int, list[Any]], None]] = None
+
+
+def _verif_trace(stage: str, iteration: int, prg: list[AST]) -> None:
+    if _NGO_VERIF and VERIF_HOOK is not None:
+        VERIF_HOOK(stage, iteration, list(prg))
 
 
 # pylint: disable=too-many-arguments
@@ -56,48 +67,62 @@ def optimize(
     Please see [Traits](#traits) for a detailed description.
     """
     input_: list[AST] = preprocess(prg)
+    _verif_iteration = 0
+    _verif_trace("preprocess", _verif_iteration, input_)
     while True:
         old = deepcopy(input_)
+        _verif_iteration += 1
         ### call transformers
         if cleanup:
             clt = CleanupTranslator(input_predicates)
             input_ = clt.execute(input_)
+            _verif_trace("cleanup", _verif_iteration, input_)
 
         if unused:
             utr = UnusedTranslator(input_, input_predicates, output_predicates)
             input_ = utr.execute(input_)
+            _verif_trace("unused", _verif_iteration, input_)
 
         if duplication:
             ldt = LiteralDuplicationTranslator(input_, input_predicates)
             input_ = ldt.execute(input_)
+            _verif_trace("duplication", _verif_iteration, input_)
 
         if symmetry:
             trans = SymmetryTranslator(input_, input_predicates)
             input_ = trans.execute(input_)
+            _verif_trace("symmetry", _verif_iteration, input_)
 
         if minmax_chains:
             mma = MinMaxAggregator(input_, input_predicates)
             input_ = mma.execute(input_)
+            _verif_trace("minmax_chains", _verif_iteration, input_)
 
         if sum_chains:
             sagg = SumAggregator(input_, input_predicates)
             input_ = sagg.execute(input_)
+            _verif_trace("sum_chains", _verif_iteration, input_)
 
         if math:
             mmath = MathSimplification(input_)
             input_ = mmath.execute(input_)
+            _verif_trace("math", _verif_iteration, input_)
 
         if inline:
             inl = InlineTranslator(input_, input_predicates, output_predicates)
             input_ = inl.execute(input_)
+            _verif_trace("inline", _verif_iteration, input_)
 
         if projection:
             pro = ProjectionTranslator(input_, input_predicates)
             input_ = pro.execute(input_)
+            _verif_trace("projection", _verif_iteration, input_)
 
         input_ = exline_arithmetic(input_)
+        _verif_trace("exline", _verif_iteration, input_)
 
         if input_ == old:
             break
     input_ = postprocess(input_)
+    _verif_trace("postprocess", _verif_iteration, input_)
     return input_
